@@ -1,2 +1,375 @@
+//! C18: exhaustive exploration of AsyncDriver (enumeration and reference both in Rust).
 use serde_json::{json, Value};
-pub fn cmd_sched(_req: &Value) -> Value { json!({"err": "not implemented"}) }
+use std::cell::RefCell;
+use std::collections::BinaryHeap;
+use std::cmp::Reverse;
+use std::future::Future;
+use std::pin::Pin;
+use std::rc::Rc;
+use std::task::{Context, Poll};
+
+use sc62015_core::async_driver::{current_cycle, emit_event, sleep_cycles, AsyncDriver, DriverEvent};
+
+#[derive(Clone, Copy, Debug, PartialEq, Eq)]
+pub enum Step {
+    Sleep(u64, bool),
+    Pend,
+}
+
+struct PendingOnce {
+    polled: bool,
+}
+impl Future for PendingOnce {
+    type Output = ();
+    fn poll(self: Pin<&mut Self>, _cx: &mut Context<'_>) -> Poll<()> {
+        let this = self.get_mut();
+        if this.polled {
+            Poll::Ready(())
+        } else {
+            this.polled = true;
+            Poll::Pending
+        }
+    }
+}
+
+type Log = Rc<RefCell<Vec<(usize, u64)>>>;
+
+async fn task(id: usize, script: Vec<Step>, log: Log) {
+    for (k, st) in script.iter().enumerate() {
+        match *st {
+            Step::Sleep(d, emit) => {
+                sleep_cycles(d).await;
+                log.borrow_mut().push((id, current_cycle()));
+                if emit {
+                    emit_event(DriverEvent::User((id * 16 + k) as u32));
+                }
+            }
+            Step::Pend => {
+                PendingOnce { polled: false }.await;
+                log.borrow_mut().push((id, current_cycle()));
+            }
+        }
+    }
+}
+
+/// Reference discrete-event scheduler: (wake cycle, arrival order).
+fn reference(tasks: &[Vec<Step>], c0: u64) -> (Vec<(usize, u64)>, Vec<u32>) {
+    let mut heap: BinaryHeap<Reverse<(u64, u64, usize)>> = BinaryHeap::new();
+    let mut seq = 0u64;
+    let mut pc = vec![0usize; tasks.len()];
+    let mut started = vec![false; tasks.len()];
+    for (i, _) in tasks.iter().enumerate() {
+        heap.push(Reverse((c0, seq, i)));
+        seq += 1;
+    }
+    let mut log = Vec::new();
+    let mut events = Vec::new();
+    while let Some(Reverse((c, _s, i))) = heap.pop() {
+        let script = &tasks[i];
+        if started[i] {
+            // the step the task was waiting on completes now
+            log.push((i, c));
+            if let Step::Sleep(_, true) = script[pc[i]] {
+                events.push((i * 16 + pc[i]) as u32);
+            }
+            pc[i] += 1;
+        } else {
+            started[i] = true;
+        }
+        if pc[i] < script.len() {
+            let wake = match script[pc[i]] {
+                Step::Sleep(d, _) => c + d,
+                Step::Pend => c + 1,
+            };
+            heap.push(Reverse((wake, seq, i)));
+            seq += 1;
+        }
+    }
+    (log, events)
+}
+
+pub struct RunOutcome {
+    pub violation: Option<(String, String)>,
+    pub log_len: usize,
+}
+
+pub fn run_case(tasks: &[Vec<Step>], budgets: &[u64], c0: u64) -> RunOutcome {
+    let (ref_log, ref_events) = reference(tasks, c0);
+    let log: Log = Rc::new(RefCell::new(Vec::new()));
+    let mut driver = if c0 == 0 { AsyncDriver::new() } else { AsyncDriver::with_clock(c0) };
+    for (i, s) in tasks.iter().enumerate() {
+        driver.spawn(task(i, s.clone(), log.clone()));
+    }
+    let mut events: Vec<u32> = Vec::new();
+    let mut viol: Option<(String, String)> = None;
+    let mut check = |driver: &AsyncDriver, before: u64, r: sc62015_core::async_driver::DriverRunResult,
+                     log: &Log, events: &mut Vec<u32>, viol: &mut Option<(String, String)>| {
+        let after = driver.clock();
+        if viol.is_some() {
+            return;
+        }
+        if after < before {
+            *viol = Some(("clock-moved-backwards".into(), format!("clock {before} -> {after}")));
+        } else if r.cycles_executed != after - before {
+            *viol = Some(("cycles-executed-mismatch".into(),
+                          format!("cycles_executed {} but clock moved {before} -> {after}", r.cycles_executed)));
+        }
+        if let DriverEvent::User(e) = r.event {
+            events.push(e);
+        }
+        let l = log.borrow();
+        if l.len() > ref_log.len() || l[..] != ref_log[..l.len()] {
+            let k = l.iter().zip(ref_log.iter()).position(|(a, b)| a != b).unwrap_or(l.len().min(ref_log.len()));
+            *viol = Some(("resumption-log-not-prefix".into(),
+                          format!("resumption #{k}: got {:?}, reference {:?} (task, cycle)", l.get(k), ref_log.get(k))));
+        }
+    };
+    for b in budgets {
+        let before = driver.clock();
+        let r = driver.run_for(*b);
+        check(&driver, before, r, &log, &mut events, &mut viol);
+    }
+    // drain
+    let mut idle = 0;
+    let mut guard = 0;
+    while idle < 2 && guard < 10_000 {
+        guard += 1;
+        let before = driver.clock();
+        let len_before = log.borrow().len();
+        let r = driver.run_for(1 << 40);
+        check(&driver, before, r, &log, &mut events, &mut viol);
+        if r.event == DriverEvent::MaxCycles && log.borrow().len() == len_before {
+            idle += 1;
+        } else {
+            idle = 0;
+        }
+    }
+    if viol.is_none() {
+        let l = log.borrow();
+        if l[..] != ref_log[..] {
+            viol = Some(("resumptions-missing-after-drain".into(),
+                         format!("log has {} resumptions, reference {} : {:?} vs {:?}", l.len(), ref_log.len(), &l[..], &ref_log[..])));
+        } else if events != ref_events {
+            viol = Some(("events-lost-duplicated-or-reordered".into(),
+                         format!("returned events {:?}, emitted (reference order) {:?}", events, ref_events)));
+        }
+    }
+    RunOutcome { violation: viol, log_len: ref_log.len() }
+}
+
+fn steps_alphabet(durs: &[u64], with_emit: bool, with_pend: bool) -> Vec<Step> {
+    let mut v = Vec::new();
+    for d in durs {
+        v.push(Step::Sleep(*d, false));
+        if with_emit {
+            v.push(Step::Sleep(*d, true));
+        }
+    }
+    if with_pend {
+        v.push(Step::Pend);
+    }
+    v
+}
+
+fn scripts(alpha: &[Step], max_len: usize) -> Vec<Vec<Step>> {
+    let mut out: Vec<Vec<Step>> = Vec::new();
+    let mut cur: Vec<Vec<Step>> = vec![vec![]];
+    for _ in 0..max_len {
+        let mut nxt = Vec::new();
+        for s in &cur {
+            for a in alpha {
+                let mut t = s.clone();
+                t.push(*a);
+                nxt.push(t);
+            }
+        }
+        out.extend(nxt.iter().cloned());
+        cur = nxt;
+    }
+    out
+}
+
+fn budget_seqs(vals: &[u64], max_len: usize) -> Vec<Vec<u64>> {
+    let mut out: Vec<Vec<u64>> = vec![vec![]];
+    let mut cur: Vec<Vec<u64>> = vec![vec![]];
+    for _ in 0..max_len {
+        let mut nxt = Vec::new();
+        for s in &cur {
+            for v in vals {
+                let mut t = s.clone();
+                t.push(*v);
+                nxt.push(t);
+            }
+        }
+        out.extend(nxt.iter().cloned());
+        cur = nxt;
+    }
+    out
+}
+
+fn step_json(s: &Step) -> Value {
+    match s {
+        Step::Sleep(d, e) => json!(["sleep", d, e]),
+        Step::Pend => json!(["pend"]),
+    }
+}
+
+fn step_from(v: &Value) -> Step {
+    let a = v.as_array().unwrap();
+    if a[0].as_str() == Some("pend") {
+        Step::Pend
+    } else {
+        Step::Sleep(a[1].as_u64().unwrap_or(0), a[2].as_bool().unwrap_or(false))
+    }
+}
+
+/// Enumerate task sets: families (ntasks, scripts) as described in DESIGN.md / evidence rule.
+fn families(thorough: bool, seed: u64) -> Vec<(String, Vec<Vec<Vec<Step>>>)> {
+    let mut full_d = vec![0u64, 1, 2, 3, 5];
+    if seed != 0 {
+        full_d.push(4 + seed % 5);
+    }
+    let full = steps_alphabet(&full_d, true, true);
+    let red = steps_alphabet(&[0, 1, 2], true, true);
+    let tiny = vec![Step::Sleep(0, false), Step::Sleep(1, false), Step::Sleep(1, true), Step::Pend];
+    let mut fams: Vec<(String, Vec<Vec<Vec<Step>>>)> = Vec::new();
+    // 1 task
+    let s1 = scripts(&full, if thorough { 4 } else { 3 });
+    fams.push(("1task/full".into(), s1.iter().map(|s| vec![s.clone()]).collect()));
+    // 2 tasks
+    let s2 = scripts(&full, 2);
+    let mut v2 = Vec::new();
+    for a in &s2 {
+        for b in &s2 {
+            v2.push(vec![a.clone(), b.clone()]);
+        }
+    }
+    fams.push(("2tasks/full-len2".into(), v2));
+    let s2r = scripts(&red, if thorough { 3 } else { 2 });
+    let mut v2r = Vec::new();
+    for a in &s2r {
+        for b in &s2r {
+            v2r.push(vec![a.clone(), b.clone()]);
+        }
+    }
+    fams.push(("2tasks/reduced".into(), v2r));
+    // 3 tasks
+    let s3 = scripts(&red, if thorough { 2 } else { 1 });
+    let s3t = scripts(&tiny, 2);
+    let s3u = if thorough { s3.clone() } else { let mut x = s3.clone(); x.extend(s3t.iter().cloned()); x };
+    let mut v3 = Vec::new();
+    for a in &s3u {
+        for b in &s3u {
+            for c in &s3u {
+                v3.push(vec![a.clone(), b.clone(), c.clone()]);
+            }
+        }
+    }
+    fams.push(("3tasks".into(), v3));
+    // 4 tasks
+    let s4 = scripts(&tiny, if thorough { 2 } else { 1 });
+    let s4f = scripts(&full, 1);
+    let mut v4 = Vec::new();
+    for set in [&s4, &s4f] {
+        for a in set.iter() {
+            for b in set.iter() {
+                for c in set.iter() {
+                    for d in set.iter() {
+                        v4.push(vec![a.clone(), b.clone(), c.clone(), d.clone()]);
+                    }
+                }
+            }
+        }
+    }
+    fams.push(("4tasks".into(), v4));
+    fams
+}
+
+pub fn cmd_sched(req: &Value) -> Value {
+    if let Some(rp) = req.get("replay") {
+        let tasks: Vec<Vec<Step>> = rp["tasks"].as_array().unwrap().iter()
+            .map(|t| t.as_array().unwrap().iter().map(step_from).collect()).collect();
+        let budgets: Vec<u64> = rp["budgets"].as_array().unwrap().iter().map(|b| b.as_u64().unwrap()).collect();
+        let c0 = rp["clock0"].as_u64().unwrap_or(0);
+        let o = run_case(&tasks, &budgets, c0);
+        return json!({"violation": o.violation.map(|(k, w)| json!({"kind": k, "what": w}))});
+    }
+    let thorough = req.get("tier").and_then(|v| v.as_str()) == Some("thorough");
+    let seed = req.get("seed").and_then(|v| v.as_u64()).unwrap_or(0);
+    let nthreads = req.get("threads").and_then(|v| v.as_u64()).unwrap_or(8) as usize;
+    let bvals: Vec<u64> = vec![1, 2, 3, 4, 7];
+    let bseqs = budget_seqs(&bvals, if thorough { 4 } else { 2 });
+    let fams = families(thorough, seed);
+    let mut fam_stats = Vec::new();
+    let mut all_viol: Vec<Value> = Vec::new();
+    let mut total_runs: u64 = 0;
+    let mut total_sets: u64 = 0;
+    let mut total_resumptions: u64 = 0;
+    for (name, sets) in fams.iter() {
+        let chunk = (sets.len() + nthreads - 1) / nthreads.max(1);
+        let results: Vec<(u64, u64, Vec<Value>)> = std::thread::scope(|sc| {
+            let mut hs = Vec::new();
+            for part in sets.chunks(chunk.max(1)) {
+                let bseqs = &bseqs;
+                let name = name.clone();
+                hs.push(sc.spawn(move || {
+                    std::panic::set_hook(Box::new(|_| {}));
+                    let mut runs = 0u64;
+                    let mut resum = 0u64;
+                    let mut viols: Vec<Value> = Vec::new();
+                    for tasks in part {
+                        for c0 in [0u64, 1000] {
+                            for b in bseqs.iter() {
+                                // thorough budget depth only from clock 0; the shifted clock uses length <= 2
+                                if c0 != 0 && b.len() > 2 {
+                                    continue;
+                                }
+                                let o = std::panic::catch_unwind(std::panic::AssertUnwindSafe(|| run_case(tasks, b, c0)));
+                                runs += 1;
+                                match o {
+                                    Ok(o) => {
+                                        resum += o.log_len as u64;
+                                        if let Some((kind, what)) = o.violation {
+                                            if viols.len() < 5 {
+                                                viols.push(json!({"kind": kind, "what": what, "family": name,
+                                                    "tasks": tasks.iter().map(|t| t.iter().map(step_json).collect::<Vec<_>>()).collect::<Vec<_>>(),
+                                                    "budgets": b, "clock0": c0}));
+                                            }
+                                        }
+                                    }
+                                    Err(_) => {
+                                        if viols.len() < 5 {
+                                            viols.push(json!({"kind": "panic", "what": "AsyncDriver panicked", "family": name,
+                                                "tasks": tasks.iter().map(|t| t.iter().map(step_json).collect::<Vec<_>>()).collect::<Vec<_>>(),
+                                                "budgets": b, "clock0": c0}));
+                                        }
+                                    }
+                                }
+                            }
+                        }
+                    }
+                    (runs, resum, viols)
+                }));
+            }
+            hs.into_iter().map(|h| h.join().unwrap_or((0, 0, vec![json!({"kind": "thread-panic"})]))).collect()
+        });
+        let runs: u64 = results.iter().map(|r| r.0).sum();
+        let resum: u64 = results.iter().map(|r| r.1).sum();
+        total_runs += runs;
+        total_sets += sets.len() as u64;
+        total_resumptions += resum;
+        for r in results {
+            all_viol.extend(r.2);
+        }
+        fam_stats.push(json!({"family": name, "task_sets": sets.len(), "runs": runs}));
+    }
+    json!({
+        "task_sets": total_sets,
+        "runs": total_runs,
+        "resumptions_checked": total_resumptions,
+        "budget_sequences": bseqs.len(),
+        "families": fam_stats,
+        "violations": all_viol,
+        "sample": {"tasks": [[["sleep", 2, true], ["pend"]], [["sleep", 0, false], ["sleep", 2, true]]], "budgets": [1, 3], "clock0": 0},
+    })
+}
